@@ -23,13 +23,15 @@ ASSUMPTIONS = [
 
 def bounds(tier):
     if tier == "quick":
-        return dict(lengths=list(range(1, 13)) + [16], ops=["rc", ">>1", "<<1", ">>2", ">>n-1", ">>n+1", ">>-3"])
-    return dict(lengths=list(range(1, 16)) + [16, 23, 40], ops=["rc", ">>1", "<<1", ">>2", ">>n-1", ">>n+1", ">>-3"])
+        return dict(lengths=list(range(1, 13)) + [16], ops=["rc", ">>1", "<<1", ">>2", ">>n-1", ">>n+1", ">>-3"], observed="sequence, features (all location flavours and qualifier shapes), per-letter tracks",
+                    flags=[f for f, _ in FLAG_VARIANTS])
+    return dict(lengths=list(range(1, 16)) + [16, 23, 40], ops=["rc", ">>1", "<<1", ">>2", ">>n-1", ">>n+1", ">>-3"], observed="sequence, features (all location flavours and qualifier shapes), per-letter tracks",
+                flags=[f for f, _ in FLAG_VARIANTS])
 
 
 def goals(tier):
     return ["closure-reached", "rc-of-past-the-end-location", "dihedral-2n-states", "negative-start-location-rotated",
-            "commutation-checked", "involution-checked", "rc-with-non-default-flags", "operand-unchanged-checked"]
+            "commutation-checked", "involution-checked", "rc-with-non-default-flags", "operand-unchanged-checked", "spelling-aware-closure"]
 
 
 def units(tier):
@@ -42,6 +44,8 @@ def units(tier):
     return us
 
 
+RAW_N = {"quick": 8, "thorough": 10}
+RAW_CAP = 5000
 FLAG_VARIANTS = [("id", True), ("name", True), ("description", True), ("annotations", True), ("letter_annotations", False),
                  ("dbxrefs", True), ("features", True)]
 
@@ -107,7 +111,15 @@ def run_unit(unit, st, tier):
     mm = c13.model(init, 0)
     if (m0["seq"], m0["feats"]) != (mm["seq"], mm["feats"]):
         raise HarnessError("model and implementation disagree on the initial record n={}".format(n))
-    key0 = snapshot.key(m0)
+    # Merging states by what they denote is only sound if equal denotations have equal futures; the library's own spelling of a
+    # location (past-the-end, negative coordinates) depends on the path.  Up to RAW_N the state therefore also holds that spelling
+    # (the closure is then larger than the dihedral group: about 2^n spellings); above it states are merged by denotation only.
+    raw = n <= RAW_N[tier]
+
+    def skey(rec_, obs_):
+        return snapshot.key(obs_) + (c13.raw_spelling(rec_) if raw else "")
+    key0 = skey(rec0, m0)
+    den_seen = {snapshot.key(m0)}
     seen = {key0: (rec0, m0, [])}
     frontier = [key0]
     while frontier:
@@ -166,26 +178,32 @@ def run_unit(unit, st, tier):
                 st.scenario("rc" if op == "rc" else "rotation", None, nodes=0)
                 if op == "rc":
                     st.nontrivial += 1
-                kk = snapshot.key(obs)
+                kk = skey(out, obs)
+                den_seen.add(snapshot.key(obs))
                 if kk not in seen:
                     seen[kk] = (out, exp, hist + [[op, k]])
                     nxt.append(kk)
-            if snapshot.key(obs_of(rec, n)) != key:
+            if skey(rec, obs_of(rec, n)) != key:
                 st.violation("edge", "operand-modified", dict(n=n, table_slice=[s, nsl], history=hist, op="rc", k=0), "operand unchanged", "changed")
             st.goal("operand-unchanged-checked")
-            if len(seen) > 2 * n:
+            if len(den_seen) > 2 * n or len(seen) > RAW_CAP:
                 break
-        if len(seen) > 2 * n:
+        if len(seen) > RAW_CAP and len(den_seen) <= 2 * n:
+            st.caps.append("n={}: spelling-aware search stopped at {} states".format(n, len(seen)))
+            break
+        if len(den_seen) > 2 * n:
             # the dihedral group of a record of length n has at most 2n elements: the search would not close
             st.violation("edge", "more-reachable-states-than-the-dihedral-group", dict(n=n, table_slice=[s, nsl], history=[], op="closure", k=0),
-                         "<= %d states" % (2 * n), len(seen))
+                         "<= %d states" % (2 * n), len(den_seen))
             st.caps.append("n={}: search stopped at {} states (> 2n)".format(n, len(seen)))
             break
         frontier = nxt
     st.states += len(seen)
     st.goal("closure-reached")
-    if len(seen) == 2 * n or n <= 2 or len(set(init["seq"])) < n:
+    if len(den_seen) == 2 * n or n <= 2 or len(set(init["seq"])) < n:
         st.goal("dihedral-2n-states")
+    if raw and n >= 4:
+        st.goal("spelling-aware-closure")
     st.extra["max_states_one_graph"] = max(st.extra["max_states_one_graph"], len(seen))
     st.sample(dict(n=n, table_slice=[s, nsl], history=[[">>", 1]], op="rc", k=0, seq=init["seq"]))
 
